@@ -745,6 +745,89 @@ def np_std(a):
     return np.std(np.asarray(a, dtype=float))
 
 
+@contract("dask_array/random/_utils.py::_wrap_func", spec="re-created-nodes-keep-the-realization", props=["C23"])
+class random_recreated_nodes:
+    """a random node re-created from its operands is the same realization: (a) with an array-valued distribution parameter
+    (the node then has dependencies, and every rewrite of one -- slice / rechunk pushdown, fusion -- re-instantiates it),
+    every derived program is computed from the values the array itself computes to; (b) a pickle / deepcopy round trip of
+    the collection, and of a derived program, computes the same values under the same name; (c) the numbers later calls draw
+    from the same generator do not depend on whether an earlier array has been computed, optimised or pickled in between"""
+    bounded_only = True
+    params = {"kind": "const", "dist": "const", "param": "const", "chunks": "const"}
+    scope = "Generator and RandomState; normal / poisson / uniform / exponential; scalar, NumPy-array and dask-array parameters; 3 layouts"
+
+    def real():
+        return lambda: None
+
+    def call(fn, kind, dist, param, chunks):
+        import copy
+        import pickle
+        import numpy as np
+        import dask_array as da
+
+        def mk():
+            return da.random.default_rng(2024) if kind == "generator" else da.random.RandomState(2024)
+
+        def par():
+            if param == "scalar":
+                return 2.0
+            if param == "numpy":
+                return np.arange(1.0, 9.0)
+            # a dask-array parameter whose own expression the optimiser rewrites
+            return (da.ones((12, 8), chunks=(5, 3)) * 2)[:6].rechunk(chunks)
+
+        def build(g):
+            kw = {"size": (6, 8), "chunks": chunks}
+            if dist == "normal":
+                return g.normal(par(), 1.0, **kw)
+            if dist == "poisson":
+                return g.poisson(par(), **kw)
+            if dist == "uniform":
+                return g.uniform(0.0, 1.0, **kw) if param != "scalar" else g.uniform(0.0, par(), **kw)
+            if dist == "exponential":
+                return g.exponential(1.0, **kw) if param != "scalar" else g.exponential(par(), **kw)
+            raise ValueError(dist)
+
+        progs = {"slice": lambda t: t[1:5, 2:7], "plus0": lambda t: t + 0, "T": lambda t: t.T, "sum0": lambda t: (t + 1).sum(axis=0),
+                 "rechunk": lambda t: t.rechunk((2, 8)) if hasattr(t, "rechunk") else t, "fused": lambda t: ((t + 1) * 2 - t)[::-1]}
+        g = mk()
+        x = build(g)
+        r1 = np.asarray(x.compute())
+        dvals = {k: np.asarray(f(x).compute()) for k, f in progs.items()}
+        want = {k: np.asarray(f(r1)) for k, f in progs.items()}
+        y = pickle.loads(pickle.dumps(x))
+        z = copy.deepcopy(x)
+        d = (x.T + 1).sum(axis=1)
+        d2 = pickle.loads(pickle.dumps(d))
+        trips = {"pickle": (np.asarray(y.compute()), y.name == x.name), "deepcopy": (np.asarray(z.compute()), z.name == x.name),
+                 "derived": (np.asarray(d2.compute()), d2.name == d.name)}
+        trip_want = {"pickle": r1, "deepcopy": r1, "derived": (r1.T + 1).sum(axis=1)}
+        nxt_after = np.asarray(g.normal(size=(3,), chunks=2).compute())
+        g2 = mk()
+        build(g2)                      # built but never computed, optimised or pickled
+        nxt_plain = np.asarray(g2.normal(size=(3,), chunks=2).compute())
+        rebuilt = np.asarray(build(mk()).compute())
+        return {"r1": r1, "dvals": dvals, "want": want, "trips": trips, "trip_want": trip_want, "nxt": (nxt_after, nxt_plain), "rebuilt": rebuilt}
+
+    def requires(kind, dist, param, chunks):
+        return True
+
+    def ensures(result, kind, dist, param, chunks):
+        t, tw = result["trips"], result["trip_want"]
+        return {"derived-computations-use-the-same-realization": all(_same(result["dvals"][k], result["want"][k]) for k in result["want"]),
+                "serialization-round-trips-keep-values-and-name": all(_same(t[k][0], tw[k]) and t[k][1] for k in t),
+                "later-draws-do-not-depend-on-earlier-computes": _same(*result["nxt"]),
+                "same-seed-shape-chunks-rebuild-the-same-values": _same(result["r1"], result["rebuilt"]),
+                "not-degenerate": float(np_std(result["r1"])) > 0}
+
+    def domain(tier, rng):
+        for kind in ("generator", "randomstate"):
+            for dist in ("normal", "poisson", "uniform", "exponential"):
+                for param in ("scalar", "numpy", "dask") if dist in ("normal", "poisson") else ("scalar",):
+                    for chunks in ((3, 4), (6, 8), (2, 3)):
+                        yield {"kind": kind, "dist": dist, "param": param, "chunks": chunks}
+
+
 @contract("dask_array/_expr.py::ArrayExpr.optimize", spec="idempotent", props=["C08"])
 class optimize_idempotent:
     """simplify / lower / fuse terminate without error on every catalogue entry that computes un-optimised, optimising an
